@@ -25,6 +25,20 @@ EXPLANATION = (
 )
 
 
+
+def _dispatcher_filter(repo, getter: str, default_name: str):
+    """The function the dispatcher hands to get_vehicles / get_requests as `filter_function` (by role, not by name): the nested
+    function of that name where it still exists, else whatever callable is passed."""
+    from .. import rules as _rules
+    solve = repo.func(DISP, "Dispatcher.generate_instructions._solve_assignment")
+    f = repo.func_opt(DISP, f"Dispatcher.generate_instructions._solve_assignment.{default_name}")
+    if f is not None:
+        return f
+    f = _rules.callable_argument(repo, solve, getter, "filter_function")
+    if f is None:
+        raise AnalysisError(f"_solve_assignment: no filter_function handed to {getter}")
+    return f
+
 def run(ctx: Ctx):
     ctx.attempt(eligibility, ctx)
     ctx.attempt(c17.dispatcher_filter, ctx, True)
@@ -40,7 +54,7 @@ def run(ctx: Ctx):
 
 
 def eligibility(ctx: Ctx):
-    fn = ctx.repo.func(DISP, "Dispatcher.generate_instructions._solve_assignment._is_valid_for_dispatch")
+    fn = _dispatcher_filter(ctx.repo, "get_vehicles", "_is_valid_for_dispatch")
     v = fn.params[0]
     acc = gd.accepting_paths(fn)
     ctx.require(len(acc) >= 1, "_is_valid_for_dispatch has no accepting path")
@@ -73,7 +87,7 @@ def eligibility(ctx: Ctx):
 
 
 def receiver_role(ctx: Ctx):
-    fn = ctx.repo.func(DISP, "Dispatcher.generate_instructions._solve_assignment._is_valid_for_dispatch")
+    fn = _dispatcher_filter(ctx.repo, "get_vehicles", "_is_valid_for_dispatch")
     v = fn.params[0]
     for node in ast.walk(fn.node):
         if isinstance(node, ast.Call) and isinstance(node.func, ast.Attribute) and node.func.attr.startswith("grant_access"):
@@ -189,8 +203,9 @@ def wiring(ctx: Ctx):
                       why_bad=f"sort_key={kw.get('sort_key')}", construct="_solve_assignment:request-order")
         if found:
             if p.kind == "return":
-                d = flow.dump(p.value)
-                ok = "lambda acc, pair: (*acc, DispatchTripInstruction(pair[0], pair[1]))" in d and ".solution, " in d
+                d = flow.cdump(p.value)
+                # canonical: <instructions so far> + tuple(DispatchTripInstruction(pair[0], pair[1]) for pair in <find_assignment(...)>.solution)
+                ok = "+ tuple((DispatchTripInstruction(_0[0], _0[1]) for _0 in " in d and ".solution))" in d and "find_assignment(" in d
                 ctx.check(ok, "D2", "DU.wiring", "one DispatchTripInstruction(vehicle id, request id) per solution pair, appended to the instructions so far", solve, p.end,
                           why_bad=f"returns {d[:200]}", construct="_solve_assignment:instructions")
             break
